@@ -20,9 +20,14 @@ package limiters
 
 import (
 	"context"
+	"errors"
 	"sync"
 	"time"
 )
+
+// ErrBucketSetFull is returned by BucketSet.TakeContext when the key has no
+// bucket, the set has reached MaxBuckets and no stale bucket can be removed.
+var ErrBucketSetFull = errors.New("limiters: bucket set is full")
 
 // BucketSet combines a group of Ls into a single key-indexed structure.
 // Basically, each unique key gets its own counter. The main use case for
@@ -125,6 +130,9 @@ func (r *BucketSet) Take(key string) bool {
 	}
 
 	bucket := r.take(key)
+	if bucket == nil {
+		return false
+	}
 	return bucket.Take()
 }
 
@@ -149,5 +157,8 @@ func (r *BucketSet) TakeContext(ctx context.Context, key string) error {
 	}
 
 	bucket := r.take(key)
+	if bucket == nil {
+		return ErrBucketSetFull
+	}
 	return bucket.TakeContext(ctx)
 }
